@@ -60,7 +60,7 @@ static void cc_build_channel(vbi_decoder *v, int i)
     pg->font[0] = vbi_font_descriptors; pg->font[1] = vbi_font_descriptors;
     pg->dirty.y0 = 0; pg->dirty.y1 = ROWS - 1; pg->dirty.roll = ROWS;
     for (k = 0; k < ROWS * COLUMNS; k++) pg->text[k] = ts;
-    for (k = 0; k < 8; k++) pg->color_map[k] = default_color_map[k];
+    if (i < 8) for (k = 0; k < 8; k++) pg->color_map[k] = default_color_map[k];   /* vbi_caption_color_level leaves channel 8 alone */
   }
 }
 
@@ -138,6 +138,8 @@ static void cc_prologue(void)
 #define A_FL 2u
 #define A_BG 4u
 #define A_ALL 7u
+#define ROWS_ALL 0x7FFFu
+#define ROWBIT(t) (1u << (t)->row)
 enum { RM_NONE, RM_POP, RM_PAINT, RM_ROLL, RM_TEXT };
 typedef struct { unsigned fg, bg, op, ul, it, fl, amb; } rpen;
 typedef struct {
@@ -149,6 +151,8 @@ typedef struct {
   int disp;          /* which of m[] is the displayed memory */
   int lag;           /* direct modes: characters received since the last word end / cursor command */
   int n_unk;         /* (KNOWN_EOC_ERASES_HIDDEN) non-displayed memory holds a flipped caption */
+  unsigned rows;     /* rows the commands since the last comparison may have changed on the screen (bit r = row r); a hint which
+                        rows to compare after a step - the whole page is compared at the end of every sequence */
   rpen pen;
   uint32_t m[2][15][32];
 } rchan;
@@ -210,6 +214,7 @@ static void r_put(rchan *t, unsigned uc, unsigned cell_amb)
 {
   int k = r_wmem(t), c;
   if (t->mode == RM_NONE) return;
+  t->rows |= ROWBIT(t);
 #ifdef KNOWN_EOC_ERASES_HIDDEN
   if (t->mode == RM_POP) V_ASSUME(!t->n_unk);
 #endif
@@ -251,6 +256,7 @@ static void r_flash_on(rchan *t)
 static void r_backspace(rchan *t)
 {
   if (t->mode == RM_NONE) return;
+  t->rows |= ROWBIT(t);
   V_ASSUME(!t->cur_amb);
   if (t->col > 1) {
 #ifdef KNOWN_COL32_PARKED
@@ -269,6 +275,7 @@ static void r_der(rchan *t)
 {
   int c, k = r_wmem(t);
   if (t->mode == RM_NONE) return;
+  t->rows |= ROWBIT(t);
   V_ASSUME(!t->cur_amb);
 #ifdef KNOWN_COL32_PARKED
   V_ASSUME(!t->full);
@@ -283,6 +290,7 @@ static void r_tab(rchan *t, unsigned n)
 {
   unsigned i;
   if (t->mode == RM_NONE) return;
+  t->rows |= ROWBIT(t);
   V_ASSUME(!t->cur_amb);
   for (i = 0; i < 3; i++) if (i < n) {
 #ifdef KNOWN_TAB_ERASES
@@ -296,6 +304,7 @@ static void r_cr(rchan *t)
 {
   int r, c, k = t->disp;
   if (t->mode == RM_NONE) return;
+  t->rows = ROWS_ALL;
   if (t->mode == RM_POP || t->mode == RM_PAINT) {
 #ifdef KNOWN_CR_IN_POPON
     V_ASSUME(0);
@@ -324,6 +333,7 @@ static void r_pac(rchan *t, unsigned c1, unsigned c2)
   if (row < 0 || t->mode == RM_NONE) return;
   V_ASSUME(t->mode != RM_TEXT);                         /* outside: PAC while Text Mode is selected */
   row -= 1;
+  t->rows |= ROWBIT(t) | (1u << row);
   if (t->pen.fl) t->pen.amb |= A_FL;                   /* 47 CFR 15.119 / EIA 608-B silent on PAC vs flash and background */
   if (t->pen.bg != VBI_BLACK || t->pen.op != VBI_OPAQUE) t->pen.amb |= A_BG;
   t->pen.amb &= ~A_FGUI;
@@ -334,6 +344,7 @@ static void r_pac(rchan *t, unsigned c1, unsigned c2)
   if (t->mode == RM_ROLL) {
     int nb = (row < t->roll - 1) ? t->roll - 1 : row;  /* EIA 608-B C.4 */
     if (nb != t->base) {
+      t->rows = ROWS_ALL;
 #ifdef KNOWN_RU_MOVE_ERASES
       V_ASSUME(r_mem_empty(t, t->disp));
 #else
@@ -343,7 +354,7 @@ static void r_pac(rchan *t, unsigned c1, unsigned c2)
 #endif
       t->base = nb;
     }
-    row = nb;
+    row = nb; t->rows |= 1u << nb;
   }
   t->row = row; t->col = col; t->full = 0; t->cur_amb = 0;
 #ifdef KNOWN_PAC_INDENT_ERASES
@@ -364,6 +375,7 @@ static void r_leave_direct(rchan *t)
 static void r_misc(unsigned c2)
 {
   rchan *c = &RC;
+  RC.rows |= ROWBIT(&RC); RT.rows |= ROWBIT(&RT);
   switch (c2 & 15) {
   case 0: /* RCL */
     if (r_cur) RT.lag = 0; else RC.lag = 0;
@@ -378,11 +390,11 @@ static void r_misc(unsigned c2)
         V_ASSUME(0);
 #else
         int r, cc_; for (r = 0; r < 15; r++) for (cc_ = 0; cc_ < 32; cc_++) if (r <= c->base - n && r > c->base - c->roll) c->m[c->disp][r][cc_] = 0;   /* (f)(1)(iv) */
-        c->roll = n; if (c->base < n - 1) { V_ASSUME(0); }
+        c->roll = n; c->rows = ROWS_ALL; if (c->base < n - 1) { V_ASSUME(0); }
 #endif
       }
     } else {
-      r_erase(c, 0); r_erase(c, 1); c->n_unk = 0;        /* (f)(1)(x) */
+      r_erase(c, 0); r_erase(c, 1); c->n_unk = 0; c->rows = ROWS_ALL;   /* (f)(1)(x) */
       c->mode = RM_ROLL; c->roll = n; c->base = 14; c->row = 14; c->col = 1; c->full = 0; c->cur_amb = 0;   /* (f)(1)(ii) */
 #ifdef KNOWN_PEN_NOT_RESET_AT_ROW_START
       c->pen.amb = A_ALL;
@@ -406,6 +418,7 @@ static void r_misc(unsigned c2)
 #else
     r_erase(&RT, 0);
 #endif
+    RT.rows = ROWS_ALL;
     RT.row = 0; RT.col = 1; RT.full = 0; RT.lag = 0; break;
   case 11: /* RTD */
     if (r_cur) RT.lag = 0; else RC.lag = 0;
@@ -417,7 +430,7 @@ static void r_misc(unsigned c2)
     V_ASSUME(!c->n_unk);
     c->n_unk = !r_mem_empty(c, c->disp);
 #endif
-    c->mode = RM_POP; c->disp ^= 1; c->lag = 0;          /* (f): flip without erasing */
+    c->mode = RM_POP; c->disp ^= 1; c->lag = 0; c->rows = ROWS_ALL;   /* (f): flip without erasing */
 #ifdef KNOWN_EOC_MOVES_CURSOR
     c->cur_amb = 1;
 #endif
@@ -430,7 +443,7 @@ static void r_misc(unsigned c2)
 #ifdef KNOWN_EDM_ENM_IN_TEXT_MODE
     V_ASSUME(r_cur == 0);
 #endif
-    r_erase(c, c->disp); c->lag = 0; break;            /* acts on the caption channel also while Text Mode is selected (EIA 608-B B.7) */
+    r_erase(c, c->disp); c->lag = 0; c->rows = ROWS_ALL; break;            /* acts on the caption channel also while Text Mode is selected (EIA 608-B B.7) */
   case 14: /* ENM */
 #ifdef KNOWN_EDM_ENM_IN_TEXT_MODE
     V_ASSUME(r_cur == 0);
@@ -501,59 +514,69 @@ static void ref_step(unsigned b1, unsigned b2)
  * 3. comparison of the fetched page with the reference display memory
  * ====================================================================================================== */
 static vbi_page PG;
-static uint32_t PREV[2][ROWS * COLUMNS];
+static uint32_t PREVR[2][15][32];   /* reference display memory (characters) at the previous comparison */
 static unsigned EVSEEN[2];
 static unsigned n_compared;
 
 static uint32_t lib_pack(vbi_char c)
 { return c.unicode | (c.foreground << 16) | (c.background << 19) | (c.opacity << 22) | (c.underline << 24) | (c.italic << 25) | (c.flash << 26); }
 static int lib_wellformed(vbi_char c)
-{ return c.foreground < 8 && c.background < 8 && c.opacity < 4 && !c.bold && !c.conceal && !c.proportional && !c.link && !c.reserved && c.size == 0 && c.drcs_clut_offs == 0; }
+{ return (c.foreground < 8) & (c.background < 8) & (c.opacity < 4) & !(c.bold | c.conceal | c.proportional | c.link | c.reserved | c.size | c.drcs_clut_offs); }
 
-static void prev_init(void)
-{
-  int w, i; vbi_char ts0 = VBI.cc.transp_space[0], ts1 = VBI.cc.transp_space[1];
-  for (w = 0; w < 2; w++) for (i = 0; i < ROWS * COLUMNS; i++) PREV[w][i] = lib_pack(w ? ts1 : ts0);
-  EVSEEN[0] = EVSEEN[1] = 0; n_compared = 0;
-}
+static void prev_init(void) { memset(PREVR, 0, sizeof PREVR); EVSEEN[0] = EVSEEN[1] = 0; n_compared = 0; }
 
-/* which: 0 caption channel, 1 text channel */
-static void compare_page(const rchan *t, int which)
+/* which: 0 caption channel, 1 text channel.  Written without branches on symbolic data (bit operations on 0/1 flags). */
+#define M_FGUI ((7u << 16) | (3u << 24))
+#define M_FL (1u << 26)
+#define M_BG ((7u << 19) | (3u << 22))
+static void compare_page(const rchan *t, int which, unsigned rows)
 {
   int r, c, pgno = (CH & 3) + 1 + 4 * which;
-  int ok_wf = 1, ok_char = 1, ok_transp = 1, ok_pad = 1, ok_fg = 1, ok_fl = 1, ok_bg = 1, changed = 0;
-  vbi_bool ok = vbi_fetch_cc_page(&VBI, &PG, pgno, TRUE);
-  V_ASSERT(ok, "fetch_ok");
-  V_ASSERT(PG.pgno == pgno && PG.rows == ROWS && PG.columns == COLUMNS, "fetch_geometry");
-  for (r = 0; r < ROWS; r++) for (c = 0; c < COLUMNS; c++) {
-    vbi_char lc = PG.text[r * COLUMNS + c];
-    uint32_t L = lib_pack(lc), Rv = 0, Rl = 0, Rr = 0;
-    unsigned lop = (L >> 22) & 3;
-    if (c >= 1 && c <= 32) Rv = t->disp ? t->m[1][r][c - 1] : t->m[0][r][c - 1];
-    if (c >= 2) Rl = t->disp ? t->m[1][r][c - 2] : t->m[0][r][c - 2];
-    if (c <= 31) Rr = t->disp ? t->m[1][r][c] : t->m[0][r][c];
-    if (!lib_wellformed(lc)) ok_wf = 0;
-    if (CU(Rv) == 0) {
-      /* nothing displayable here: transparent (which == 0) / blank (text), or a solid space next to a displayable character (d)(1) */
-      if (CU(L) != 0x20) ok_transp = 0;
-      else if (which == 0 && lop != VBI_TRANSPARENT_SPACE && CU(Rl) == 0 && CU(Rr) == 0) ok_pad = 0;
-    } else {
-      unsigned amb = Rv >> 27;
-      if (CU(L) != CU(Rv)) ok_char = 0;
-      if (!(amb & A_FGUI) && ((L ^ Rv) & ((7u << 16) | (3u << 24)))) ok_fg = 0;
-      if (!(amb & A_FL) && ((L ^ Rv) & (1u << 26))) ok_fl = 0;
-      if (!(amb & A_BG) && ((L ^ Rv) & ((7u << 19) | (3u << 22)))) ok_bg = 0;
+  unsigned ok_wf = 1, ok_char = 1, ok_transp = 1, ok_pad = 1, ok_fg = 1, ok_fl = 1, ok_bg = 1, changed = 0;
+  /* The cells are read from the page vbi_fetch_cc_page() copies (cc.channel[pgno - 1].pg[hidden ^ 1]), not from the
+     copy: reading 510 cells back out of the memcpy'd 9 KB object stalls symex.  That the copy equals this page
+     is the separate obligation fetch_contract (h_cc_fetch). */
+  const cc_channel *lch = &VBI.cc.channel[(CH & 3) + 4 * which];
+  int hid = lch->hidden;
+  const vbi_char *txt;
+  vbi_bool ok;
+  V_ASSERT(hid == 0 || hid == 1, "hidden_is_0_or_1");
+  txt = hid ? lch->pg[0].text : lch->pg[1].text;
+  for (r = 0; r < ROWS; r++) if ((rows >> r) & 1) {
+    uint32_t Dv[COLUMNS];
+    Dv[0] = 0; Dv[COLUMNS - 1] = 0;
+    for (c = 0; c < 32; c++) Dv[c + 1] = t->disp ? t->m[1][r][c] : t->m[0][r][c];
+    for (c = 0; c < COLUMNS; c++) {
+      vbi_char lc = txt[r * COLUMNS + c];
+      uint32_t L = lib_pack(lc), Rv = Dv[c], x = L ^ Rv;
+      unsigned lop = (L >> 22) & 3, amb = Rv >> 27;
+      unsigned nb = (c > 0 ? CU(Dv[c - 1]) : 0) | (c < COLUMNS - 1 ? CU(Dv[c + 1]) : 0);
+      unsigned e = (CU(Rv) == 0);
+      ok_wf &= (unsigned) lib_wellformed(lc);
+      /* nothing displayable here: transparent (caption) / blank (text); a solid space is tolerated next to a displayable character, (d)(1) */
+      ok_transp &= !e | (CU(L) == 0x20);
+      ok_pad &= !e | (which != 0) | (lop == VBI_TRANSPARENT_SPACE) | (nb != 0);
+      ok_char &= e | (CU(L) == CU(Rv));
+      ok_fg &= e | ((amb & A_FGUI) != 0) | ((x & M_FGUI) == 0);
+      ok_fl &= e | ((amb & A_FL) != 0) | ((x & M_FL) == 0);
+      ok_bg &= e | ((amb & A_BG) != 0) | ((x & M_BG) == 0);
 #if V_NATIVE
-      if (CU(L) != CU(Rv)) printf("MISMATCH pgno %d row %d col %d: decoder U+%04X attr %07X, reference U+%04X attr %07X\n", pgno, r + 1, c, CU(L), L >> 16, CU(Rv), Rv >> 16);
+      if (!(e | (CU(L) == CU(Rv))) || !(!e | (CU(L) == 0x20)) || !(!e | (which != 0) | (lop == VBI_TRANSPARENT_SPACE) | (nb != 0))
+          || !(e | ((amb & A_FGUI) != 0) | ((x & M_FGUI) == 0)) || !(e | ((amb & A_FL) != 0) | ((x & M_FL) == 0)) || !(e | ((amb & A_BG) != 0) | ((x & M_BG) == 0)))
+        printf("MISMATCH pgno %d row %d col %d: decoder U+%04X attr %03X, reference U+%04X attr %03X amb %u\n", pgno, r + 1, c, CU(L), L >> 16, CU(Rv), (Rv >> 16) & 0x7FF, amb);
 #endif
     }
-#if V_NATIVE
-    if (CU(Rv) == 0 && (CU(L) != 0x20 || (which == 0 && lop != VBI_TRANSPARENT_SPACE && CU(Rl) == 0 && CU(Rr) == 0)))
-      printf("MISMATCH pgno %d row %d col %d: decoder U+%04X opacity %u, reference transparent\n", pgno, r + 1, c, CU(L), lop);
-#endif
-    if (L != PREV[which][r * COLUMNS + c]) changed = 1;
-    PREV[which][r * COLUMNS + c] = L;
   }
+  /* "visible page changed" := the characters of the reference display memory differ from the previous comparison
+     (then, both comparisons holding, the fetched page differs too) */
+  for (r = 0; r < 15; r++) for (c = 0; c < 32; c++) {
+    uint32_t v = t->disp ? t->m[1][r][c] : t->m[0][r][c];
+    changed |= (CU(v) != PREVR[which][r][c]);
+    PREVR[which][r][c] = CU(v);
+  }
+  ok = vbi_fetch_cc_page(&VBI, &PG, pgno, TRUE);
+  V_ASSERT(ok, "fetch_ok");
+  V_ASSERT(PG.pgno == pgno && PG.rows == ROWS && PG.columns == COLUMNS, "fetch_geometry");
   V_ASSERT(ok_wf, "cell_wellformed");
   V_ASSERT(ok_char, "display_character");
   V_ASSERT(ok_transp, "display_transparent_where_nothing_addressed");
@@ -587,9 +610,11 @@ static void after_step(unsigned b1, unsigned b2)
 {
   ref_step(b1, b2);
   V_ASSERT(!c08_mutex_held(&VBI.cc.mutex), "mutex_released");
-  if (!RC.lag) compare_page(&RC, 0);
+#ifndef PROBE_NOCMP
+  if (!RC.lag) { compare_page(&RC, 0, RC.rows); RC.rows = 0; }
+#endif
 #if CMP_TEXT
-  if (!RT.lag) compare_page(&RT, 1);
+  if (!RT.lag) { compare_page(&RT, 1, RT.rows); RT.rows = 0; }
 #endif
 }
 static void step(uint8_t b1, uint8_t b2) { lib_feed(b1, b2); after_step(b1, b2); }
@@ -675,7 +700,25 @@ V_HARNESS(h_cc_seq)
   V_INIT();
   cc_prologue(); r_init(); prev_init();
   SKEL;
+  /* whole page at the end (rows the hints above did not name included) */
+  if (!RC.lag) compare_page(&RC, 0, ROWS_ALL);
+#if CMP_TEXT
+  if (!RT.lag) compare_page(&RT, 1, ROWS_ALL);
+#endif
   V_ASSERT(n_compared <= 64, "sanity");
   if (n_compared >= 1) V_REACH("compared");
+  V_END();
+}
+
+/* ---- fetch contract (probe) ---- */
+V_HARNESS(h_cc_fetch)
+{
+  unsigned k; vbi_bool ok;
+  V_INIT();
+  cc_prologue();
+  k = in_u16();
+  ok = vbi_fetch_cc_page(&VBI, &PG, (CH & 3) + 1, TRUE);
+  V_ASSERT(ok, "fetch_ok");
+  V_ASSERT(PG.pgno == (CH & 3) + 1, "fetch_pgno");
   V_END();
 }
